@@ -183,11 +183,11 @@ theorem upreset_branch (c : Cfg) (ar aq : Nat) (s : S) (b : Base c ar aq s) (hru
           exact tail_down c ar aq r hbr r_cl hd (fun hf => by subst hr; simp [e_up, e_pd, how] at hf)
         · have r_dir : r.direct = false := by subst hr; exact hdir
           have r_su : (r.up.isSome && r.setupRetry) = true := by subst hr; simp [e_up]
-          have : peTail c r true = ({ r with setupRetry := false }, some .Retry) := by
+          have : peTail c r true = ({ r with up := some none, setupRetry := false }, some .Retry) := by
             unfold peTail
             rw [if_neg hd, if_neg (by simp [r_dir]), if_pos r_su]
           rw [this]
-          show Inv c ar aq (reenter { r with setupRetry := false } .Retry)
+          show Inv c ar aq (reenter { r with up := some none, setupRetry := false } .Retry)
           apply tail_retry c ar aq r hbr (by subst hr; exact e_run) r_cl how
           · subst hr; simpa [K3] using h3'
           · subst hr; simpa [K6] using h6'
